@@ -97,3 +97,22 @@ pub fn deal<T>(items: Vec<T>, n: usize) -> Vec<Vec<T>> {
   }
   out
 }
+
+/// Day numbers of the windows in which the library's lunar calendar is known to be irregular (the two hard-coded reform
+/// periods: open findings of C02 / C03 / C07 / C17) and the first days of year 1 (no solar term before them): samplers of
+/// properties that do not own those findings draw their days outside these windows.
+pub fn in_seam(j: i64) -> bool {
+  // 0001-01-01..01-09 | 0008-11-01..0009-03-01 | 0023-11-01..0025-03-31 | 0236-11-01..0237-03-31 | 0239-11-01..0240-03-31
+  const W: [(i64, i64); 5] = [(1721424, 1721432), (1724285, 1724405), (1729763, 1730279), (1807562, 1807712), (1808657, 1808808)];
+  W.iter().any(|(a, b)| j >= *a && j <= *b)
+}
+
+/// a uniformly drawn day number in lo..=hi outside the seam windows
+pub fn sample_day(rng: &mut Rng, lo: i64, hi: i64) -> i64 {
+  loop {
+    let j = rng.range(lo, hi);
+    if !in_seam(j) {
+      return j;
+    }
+  }
+}
